@@ -173,7 +173,7 @@ class Parser:
         return ("fun", [], self.type_())
 
 
-def parse_file(text):
+def parse_file(text, check=True):
     """-> (lines, decls [(name, ident, sig)], axioms [(name, formula)])"""
     if "\r" in text or "{" in text or "}" in text or '"' in text or "\\" in text:
         raise Bad("unexpected character in the preamble (CR, brace, quote or backslash)")
@@ -210,7 +210,73 @@ def parse_file(text):
                 raise Bad("trailing tokens")
         except Bad as b:
             raise Bad(f"line {ln}: {b}: {line}")
+    if check:
+        self_check(lines, decls, axioms)
     return lines, decls, axioms
+
+
+# ------------------------------------------------------------------ strict self-check of the parse
+# The Coq axiom list must be THE parse of the bytes.  Two independent checks:
+#  (1) here: the syntax tree, printed fully parenthesised, is re-parsed to the same tree, and its
+#      tokens are, apart from parentheses, exactly the tokens of the source line in the same order
+#      (nothing dropped, nothing invented, nothing reordered);
+#  (2) in Coq (Proofs/ProblemText.v [preamble_reads], Properties/C12text.v C12_preamble_text): the
+#      specification reader Model/TffText.v [read_problem] reads [preamble_text] as exactly
+#      preamble_decls / preamble_formulas -- grouping included; the build fails otherwise.
+
+def show_term(t):
+    if t[0] == "num":
+        return str(t[1])
+    if t[0] == "var":
+        return t[1]
+    if not t[2]:
+        return t[1]
+    return t[1] + "(" + ", ".join(show_term(a) for a in t[2]) + ")"
+
+
+def show_formula(f):
+    """fully parenthesised"""
+    k = f[0]
+    if k == "pred":
+        return show_term(("app", f[1], f[2]))
+    if k in ("eq", "neq"):
+        return "(" + show_term(f[1]) + (" = " if k == "eq" else " != ") + show_term(f[2]) + ")"
+    if k == "not":
+        return "~(" + show_formula(f[1]) + ")"
+    if k in ("and", "or", "imp", "rimp", "iff"):
+        op = {"and": "&", "or": "|", "imp": "=>", "rimp": "<=", "iff": "<=>"}[k]
+        return "(" + show_formula(f[1]) + " " + op + " " + show_formula(f[2]) + ")"
+    q = "!" if k == "forall" else "?"
+    return q + "[" + ", ".join(f"{x}: {ty}" for x, ty in f[1]) + "]: (" + show_formula(f[2]) + ")"
+
+
+def show_sig(sig):
+    if sig[0] == "type":
+        return "$tType"
+    if sig[0] == "pred":
+        return "$o" if not sig[1] else "(" + " * ".join(sig[1]) + ") > $o"
+    return sig[2] if not sig[1] else "(" + " * ".join(sig[1]) + ") > " + sig[2]
+
+
+def no_parens(toks):
+    return [t for t in toks if t not in (("p", "("), ("p", ")"))]
+
+
+def self_check(lines, decls, axioms):
+    shown = [f"tff({name}, type, {ident}: {show_sig(sg)})." for name, ident, sg in decls]
+    shown += [f"tff({name}, axiom, {show_formula(f)})." for name, f in axioms]
+    if len(shown) != len(lines):
+        raise Bad("self-check: number of statements")
+    # declarations first, then axioms, in file order (the Coq lists keep that order)
+    order = [l for l in lines if ", type, " in l] + [l for l in lines if ", type, " not in l]
+    if order != lines:
+        raise Bad("self-check: the preamble must list its type declarations before its axioms")
+    d2, a2 = parse_file("\n".join(shown) + "\n", check=False)[1:]
+    if d2 != decls or a2 != axioms:
+        raise Bad("self-check: the printed syntax trees do not re-parse to themselves")
+    for line, sh in zip(lines, shown):
+        if no_parens(lex(line)) != no_parens(lex(sh)):
+            raise Bad(f"self-check: the syntax tree does not have the tokens of the line: {line}")
 
 
 # ------------------------------------------------------------------ type checking (for the Coq rendering)
@@ -394,6 +460,11 @@ def render(path_shown, lines, decls, axioms):
     w("].")
     w('Definition newline : string := String (Ascii.ascii_of_nat 10) "".')
     w("Definition preamble_text : string := String.concat \"\" (map (fun l => l ++ newline) preamble_lines).")
+    w("(* the same bytes as ONE literal (the newlines are in the literal): Properties/C12text.v proves")
+    w("   preamble_text = preamble_bytes and that the specification reader reads these bytes as")
+    w("   preamble_decls / preamble_formulas below *)")
+    w("Definition preamble_bytes : string :=")
+    w(cstr("".join(l + "\n" for l in lines)) + ".")
     w("")
     w("(* an arbitrary structure for the declared signature ($int is always Z) *)")
     w("Record tff_structure := mk_tff_structure {")
